@@ -5,5 +5,6 @@ CONSTANTS
   MaxNodes = 14
   M = 4
 INVARIANT Fid
+ACTION_CONSTRAINT FidEdge
 VIEW View
 CHECK_DEADLOCK FALSE
